@@ -13,7 +13,7 @@ Extraction "../ocaml/model.ml"
   directives_of after_directives is_injected_let program_body blocks_of
   roundtrip_ok norm_print strip_parens
   to_config prologue_text
-  decode_mappings chain lookup find_entry vlq_encode
+  decode_mappings chain chain_opt lookup find_entry vlq_encode
   collect order_issues
   wf_all has_optchain ns_count
   sem_tie plus_name csi_get allows_literal_callers.
